@@ -216,9 +216,13 @@ def coq_reader(dirpath, name):
     try:
         if os.path.getsize(os.path.join(dirpath, name + '.val')) > 4 << 20:
             return None      # list-of-N images of many megabytes are too slow for the extracted reader
+        hp = os.path.join(dirpath, name + '.htx')
+        hb = open(hp, 'rb').read(24)
+        if len(hb) < 24 or 128 + 8 * int.from_bytes(hb[16:24], 'little') > os.path.getsize(hp):
+            return None      # a bucket count that does not fit the file (stale / garbage image): the reader would enumerate it; the Python decoder reports it
         # the extracted list functions are not tail recursive: give the reader an unlimited stack
         r = subprocess.run(['bash', '-c', 'ulimit -s unlimited 2>/dev/null; exec "$0" load "$1" "$2"', drv, dirpath, name],
-                           capture_output=True, text=True, timeout=300)
+                           capture_output=True, text=True, timeout=90)
         out = r.stdout.strip()
         if r.returncode != 0 or not out.startswith('load '):
             return None      # the reader itself failed to run (stack, time): no verdict - never a verdict on the code
